@@ -73,6 +73,7 @@ Definition check_feed (sel : N) (w : wcase) (cs : list int * (list (list int) * 
       else if want 9 && N.eqb cls 8 && effect then mkV 300 0
       else if want 14 && (N.eqb cls 3 || N.eqb cls 7) && effect then mkV 306 0
       else if want 16 && N.eqb cls 5 && (effect || bi wrote) then mkV 307 0
+      else if want 9 && N.eqb cls 5 && effect then mkV 314 0
       else if want 13 && N.eqb cls 6 && (effect || (65536 <? ni consumed)) then mkV 305 0
       else if want 13 && N.eqb cls 4 && effect && negb (bi effok) then mkV 303 0
       else
@@ -91,8 +92,9 @@ Definition check_feed (sel : N) (w : wcase) (cs : list int * (list (list int) * 
         obs: [[join_ok; joiner_lists_host; host_lists_joiner; joiner_lists_hosts_members; joiner_changed; host_changed]] ---- *)
 Definition check_join (sel : N) (cs : list int * (list (list int) * list (list int))) : verdict :=
   match fst cs, snd (snd cs) with
-  | _ :: jv :: hv :: inc :: _, [[ok; jl; hl; jm; jc; hc]] =>
+  | _ :: jv :: hv :: inc :: _, [[ok; jl; hl; jm; jc; hc; jd; hd]] =>
       if negb (N.eqb sel 0 || N.eqb sel 9) then vok
+      else if bi jd || bi hd then mkV 313 0
       else if bi ok && negb (bi jl && bi jm) then mkV 310 0
       else if bi ok && negb (bi hl) then (if bi hv || bi inc then mkV 311 0 else mkV 310 0)
       else if negb (bi ok) && bi jc then mkV 312 0
